@@ -621,6 +621,10 @@ func runC19(e *env) error {
 	if err := runExtSel(e); err != nil {
 		return err
 	}
+	// repeated identical setting lines: every output:raw line of a doc comment is applied, in order, as often as written (w10_c19.go)
+	if err := runRawLines(e); err != nil {
+		return err
+	}
 	return nil
 }
 
